@@ -284,12 +284,12 @@ def work(task):
   confirmed = {}
   for r in P.results:
     r = dict(r)
-    if r['status'] == 'sat' and r.get('kind', 'core') == 'core':
+    if r['status'] in ('sat', 'unknown') and r.get('kind', 'core') == 'core':
       cf = confirm(task, r['name'])
       if cf:
         r['status'] = 'violation'
         viol.append(dict(key=cf['key'], what=cf['what'], replay=cf['replay']))
-      else:
+      elif r['status'] == 'sat':
         r['status'] = 'spurious'
         r['note'] = 'candidate counterexample did not reproduce on the real code'
     res.append(r)
